@@ -467,11 +467,15 @@ pub fn run(s: &Session) {
     s.set_rule(
         "random schedules: 1..=3 agent pairs (2..=6 agents, both roles, both directions) on 6 protocol ids, 0..=200 chunks per \
          direction of 0..=65535 bytes (edges emphasised) with 0..3 task yields after each, 2..=4 runtime workers; non-trivial = \
-         at least 2 protocol ids active in both directions and at least one chunk >= 32 KiB; distinct = distinct serialised schedules",
+         at least 2 protocol ids active in both directions and at least one chunk >= 32 KiB; distinct = distinct serialised schedules. \
+         Second stack: block-fetch bodies (0..200 000 bytes) and keep-alive cookies, each channel with or without the responder bit, cut into \
+         segments of generated sizes and written interleaved through the net2 bearer; read_full_msgs must deliver per protocol exactly what was sent",
     );
     s.assume("interleavings are sampled (tokio scheduler, yields, worker count), not enumerated");
     s.assume("muxer writes segments in enqueue order and the demuxer dispatches them in read order, so a chunk still missing when a later-enqueued sentinel has arrived (+300 ms grace) is lost");
     s.forall("schedules", s.pick(1_000, 20_000), || mux_case(200), |case, obs| run_case(s, case, obs));
+    // the second stack's bearer (framing and reassembly per channel and role under interleaving)
+    crate::c20_net2::run(s);
     if !s.replaying() {
         for c in ["both-orientations-of-one-protocol", "has-chunk>=32KiB", "has-max-size-chunk", "has-empty-chunk",
             "has-script>100-chunks(queue-backpressure)", "agents-6"] {
